@@ -1,6 +1,6 @@
 SPECIFICATION Spec
 CONSTANTS
-  RelayClasses = {"empty", "plain", "escape", "html", "nonascii", "long", "newline", "binary", "control", "srcdict"}
+  RelayClasses = {"empty", "blank", "plain", "escape", "html", "nonascii", "long", "newline", "binary", "control", "srcdict"}
 INVARIANTS RunAgrees Emit
 PROPERTIES Terminates
 CHECK_DEADLOCK FALSE
